@@ -36,5 +36,35 @@ CHECKS = {
             "technique": "effect/ordering analysis (EVAL* WRITE* typestate) over inlined call graph with loop nesting"},
 }
 
+_F = ("exact exp-polynomial normal forms (rational coefficients, symbolic exponents, merged exponentials) computed from /repo's "
+      "source by the abstract evaluator; equality of normal forms is equality of the functions for every r and parameter vector")
+
+CHECKS.update({
+    "C06": {"engine": "E-SYM", "level": "proof", "design_ref": "DESIGN.md section 4 C06 and section 11",
+            "text": "Identity proofs: for each of the 14 built-in forms the normal form of __call__ equals that of the manual's formula (sa/specs/forms.py) and of the class's _as_sympy sibling; parameter order equals the manual's ':potable signature:' (parsed on each run); the factory, registry ('as.NAME') and formula-call routes are evaluated through the real wrapper code and give the same normal form; arity checks raise. " + _F,
+            "note": _N + " ZBL is proved against _as_sympy only (manual entry schematic). Tolerance 1e-9 relative on machine-generated constants.",
+            "technique": "symbolic normal-form identity (term rewriting to canonical exp-polynomials) over abstractly evaluated source"},
+    "C07": {"engine": "E-SYM", "level": "proof", "design_ref": "DESIGN.md section 4 C07 and section 11",
+            "text": "Identity proofs D(value) = deriv and D(deriv) = deriv2 by syntax-directed differentiation of normal forms for all built-in forms (polynomial orders 0..8), plus/product/pow over opaque operands (including mixed analytic/numeric operands), trans(), multi-range forms, splined potentials per region, Buck4 selection, factory wrappers and the table form's derivative objects; gradient()/num_deriv() bodies checked separately.",
+            "note": _N + " Accuracy of the h=1e-6 central difference and scipy's spline derivative are assumptions.",
+            "technique": "symbolic differentiation + normal-form identity; Phi-tree (region) alignment"},
+    "C08": {"engine": "E-SYM", "level": "proof", "design_ref": "DESIGN.md section 4 C08 and section 11",
+            "text": "Premise by dataflow (r, starts, markers only in comparisons), then exhaustive enumeration of every order type of (r, starts), marker assignment and listing permutation for k <= 3 (quick) / k <= 5 (thorough) ranges, evaluating the real constructor, sorted setter, _range_search, __call__, deriv, deriv2 abstractly against the stated selection; class selection of create_Multi_Range_Potential_Form over all availability patterns; potable default range and grammar alternative order.",
+            "note": _N + " Exhaustive within the stated bound on the number of ranges.",
+            "technique": "comparison-only dataflow premise + exhaustive finite-domain abstract evaluation (order types)"},
+    "C10": {"engine": "E-SYM", "level": "other", "design_ref": "DESIGN.md section 4 C10 and section 11",
+            "text": "The spline-defining linear systems are extracted from _init_spline_coefficients by abstract evaluation and every row/right-hand side is proved to be the stated C2 / stationary-point constraint (Exp_Spline on both branches of the positivity shift, Buck4 as a set of 10 linear equations); region map, spline() modifier bindings, buck4 shorthand and region-wise derivatives are compared by role.",
+            "note": _N + " Solvability/conditioning of numpy.linalg.solve is assumed.", "technique": "constraint-matrix extraction by abstract evaluation + row-wise normal-form identities"},
+    "C11": {"engine": "E-SYM", "level": "other", "design_ref": "DESIGN.md section 4 C11 and section 11",
+            "text": "Exhaustive decision table (presence x sign of nr/dr/cutoff, both instances, 128 cases) of _init_cutoff by abstract evaluation with symbolic positive values; rounding-safe quotient-to-count idiom on the normal form (rejects bare truncation and tolerances below the quotient's rounding error); defaults and grid-step definitions.",
+            "note": _N, "technique": "finite-domain abstract evaluation + idiom rule on arithmetic normal forms"},
+    "C13": {"engine": "E-SYM", "level": "other", "design_ref": "DESIGN.md section 4 C13 and section 11",
+            "text": "Exhaustive filter table (all include/exclude sets over {A,B,C,unknown}, one- and two-species keys, four views) evaluated abstractly with wrapt.ObjectProxy's attribute forwarding modelled, a multi-view history for isolation, exhaustiveness of overridden views, and the CLI's presence tests.",
+            "note": _N + " wrapt's documented rule (_self_ prefix) is modelled, not wrapt itself.", "technique": "finite-domain abstract evaluation with proxy-attribute (ownership) model; who-may-access lint"},
+    "C19": {"engine": "E-SYM", "level": "other", "design_ref": "DESIGN.md section 4 C19 and section 11",
+            "text": "GULP, ADP and funcfl writers: output-expression tree equality with reference writers; ADP factory slot binding; Excel workbooks evaluated on a recording openpyxl model with symbolic rows (first column = grid, labelled column = that label's function).",
+            "note": _N, "technique": "abstract interpretation to output-expression trees / recorded worksheet cells + normal-form equality"},
+})
+
 _PENDING = "checker not built yet in this session (design in DESIGN.md section 4); not claimed until its check exists"
 NOT_APPLICABLE = dict(("C%02d" % i, _PENDING) for i in range(1, 21) if ("C%02d" % i) not in CHECKS)
